@@ -87,7 +87,7 @@ func genValueType(t *rapid.T) cfggen.Type {
 
 func genC(t *rapid.T) CaseC {
 	ty := genValueType(t)
-	v := cfggen.WidenNumbers(t, replaceStrings(t, cfggen.GenVal(t, ty)))
+	v := cfggen.WidenNumbers(t, replaceStrings(t, cfggen.GenVal(t, ty)), ty)
 	if rapid.IntRange(0, 15).Draw(t, "null") == 15 {
 		v = cfggen.Null()
 	}
@@ -124,8 +124,11 @@ func checkC(c CaseC) *core.Violation {
 		}
 		got = cv
 	}
-	if !got.RawEquals(v) {
+	if !sameValue(got, v) {
 		cls := c.Type.K
+		if cfggen.ShortestDecimalQuirk(c.Val) {
+			cls = "float64-power-of-two-shortest-decimal"
+		}
 		if strings.Contains(fmt.Sprintf("%#v", v), "$${") || strings.Contains(fmt.Sprintf("%#v", v), "%%{") {
 			cls += "|doubled-template-introducer"
 		}
@@ -199,6 +202,51 @@ func instNonPrintable(b *cfggen.BodyI) bool {
 	return false
 }
 
+// instFloat64Quirk: some float64-typed number of the instance is one of the exact
+// powers of two whose shortest decimal (math/big) is a different float64.
+func instFloat64Quirk(s *cfggen.BodyS, in *cfggen.BodyI) bool {
+	var inType func(v cfggen.Val, t cfggen.Type) bool
+	inType = func(v cfggen.Val, t cfggen.Type) bool {
+		switch t.K {
+		case "number":
+			if v.K == "n" && !t.Int && !t.Uint {
+				f, _ := cfggen.NumberOf(v.S).AsBigFloat().Float64()
+				return cfggen.Float64Quirk(f)
+			}
+		case "list", "set":
+			for _, e := range v.L {
+				if inType(e, *t.E) {
+					return true
+				}
+			}
+		case "map":
+			for _, kv := range v.M {
+				if inType(kv.V, *t.E) {
+					return true
+				}
+			}
+		case "object":
+			for _, f := range t.F {
+				if fv, ok := v.Get(f.N); ok && inType(fv, f.T) {
+					return true
+				}
+			}
+		}
+		return false
+	}
+	for _, a := range in.Attrs {
+		if as := s.Attr(a.Name); as != nil && inType(a.V, as.T) {
+			return true
+		}
+	}
+	for i := range in.Blocks {
+		if bs := s.Block(in.Blocks[i].Type); bs != nil && bs.Body != nil && instFloat64Quirk(bs.Body, &in.Blocks[i].Body) {
+			return true
+		}
+	}
+	return false
+}
+
 func checkD(c CaseD) *core.Violation {
 	want := cfggen.ExpectedStruct(&c.Schema, &c.Inst, nil)
 	ptr := reflect.New(want.Type())
@@ -228,6 +276,9 @@ func checkD(c CaseD) *core.Violation {
 		return core.V("EncodeIntoBody|output-does-not-decode", "encoded struct does not decode into its own type: %s\n%s", dd.Error(), clip(string(src), 3000))
 	}
 	if ok, where := cfggen.EqualGo(got.Elem(), want); !ok {
+		if instFloat64Quirk(&c.Schema, &c.Inst) {
+			return core.V("EncodeIntoBody|struct-differs|float64-power-of-two-shortest-decimal", "decoded struct differs from the encoded one at %s\n%s", where, clip(string(src), 3000))
+		}
 		return core.V("EncodeIntoBody|struct-differs", "decoded struct differs from the encoded one at %s\n%s", where, clip(string(src), 3000))
 	}
 	return nil
